@@ -531,5 +531,737 @@ theorem mapObjFill_length {keys : List String} {vals : List Value} :
         simp [mapObjFill_length ns ts os rest (by simpa using h1) (by simpa using h2) hrest]
       · simp at h
 
+/-! ### alignment facts for object types -/
+
+theorem find_mem_ty {k : String} : ∀ {ns : List String} {ts : List Ty} {os : List Bool} {t o},
+    Ty.find k ns ts os = some (t, o) → t ∈ ts
+  | [], _, _, _, _, h => by simp [Ty.find] at h
+  | _ :: _, [], _, _, _, h => by simp [Ty.find] at h
+  | _ :: _, _ :: _, [], _, _, h => by simp [Ty.find] at h
+  | n :: ns, t :: ts, o :: os, t', o', h => by
+    simp only [Ty.find] at h
+    split at h
+    · simp at h; simp [h.1]
+    · exact List.mem_cons_of_mem _ (find_mem_ty h)
+
+theorem regularObj_find {inn : List String} {its : List Ty} {ios : List Bool} {n : String} {oty : Ty} {o : Bool} :
+    ∀ (ns : List String) (os : List Ty) (oos : List Bool), regularObj inn its ios ns os = true →
+    Ty.find n ns os oos = some (oty, o) → ∀ it b, Ty.find n inn its ios = some (it, b) → regular it oty = true
+  | [], _, _, _, h => by simp [Ty.find] at h
+  | _ :: _, [], _, _, h => by simp [Ty.find] at h
+  | _ :: _, _ :: _, [], _, h => by simp [Ty.find] at h
+  | m :: ns, t :: os, b' :: oos, hr, h => by
+    simp only [regularObj, Bool.and_eq_true] at hr
+    simp only [Ty.find] at h
+    split at h
+    · rename_i hmn
+      subst hmn
+      simp at h
+      intro it b hf
+      have h1 := hr.1
+      simp only [hf] at h1
+      rw [← h.1]; exact h1
+    · exact regularObj_find ns os oos hr.2 h
+
+theorem find_prefix : ∀ (pre : List String) (preT : List Ty) (preB : List Bool) (k : String) (post : List String)
+    (t : Ty) (postT : List Ty) (b : Bool) (postB : List Bool), pre.length = preT.length →
+    preB.length = preT.length → k ∉ pre →
+    Ty.find k (pre ++ k :: post) (preT ++ t :: postT) (preB ++ b :: postB) = some (t, b)
+  | [], [], [], k, post, t, postT, b, postB, _, _, _ => by simp [Ty.find]
+  | [], _ :: _, _, _, _, _, _, _, _, h, _, _ => by simp at h
+  | _ :: _, [], _, _, _, _, _, _, _, h, _, _ => by simp at h
+  | _, _ :: _, [], _, _, _, _, _, _, _, h, _ => by simp at h
+  | _, [], _ :: _, _, _, _, _, _, _, _, h, _ => by simp at h
+  | a :: pre, x :: preT, y :: preB, k, post, t, postT, b, postB, h1, h2, hk => by
+    have hak : a ≠ k := fun e => hk (by simp [e])
+    simp only [List.cons_append, Ty.find, hak, if_false]
+    exact find_prefix pre preT preB k post t postT b postB (by simpa using h1) (by simpa using h2)
+      (fun h => hk (by simp [h]))
+
+theorem regularAll_mem {ie : Ty} : ∀ {os : List Ty}, regularAll ie os = true → ∀ t ∈ os, regular ie t = true
+  | [], _, _, h => by simp at h
+  | o :: os, hr, t, ht => by
+    simp only [regularAll, Bool.and_eq_true] at hr
+    rcases List.mem_cons.mp ht with rfl | ht
+    · exact hr.1
+    · exact regularAll_mem hr.2 t ht
+
+theorem map_false_of_length {α β} {l : List α} {m : List β} (h : l.length = m.length) :
+    l.map (fun _ => false) = m.map (fun _ => false) := by
+  induction l generalizing m with
+  | nil => cases m <;> simp at h ⊢
+  | cons a l ih =>
+    cases m with
+    | nil => simp at h
+    | cons b m => simp [ih (by simpa using h)]
+
+/-! ### the closure bodies, one kind at a time -/
+
+section Bodies
+variable {E : Env} (hU : UnifyLaws E) {rec : Rec} (hrec : RecOK E rec)
+include hU hrec
+
+/-- the members a collection value yields all carry the collection's element type -/
+def ElemsOK (E : Env) (v : Value) (ie : Ty) : Prop :=
+  ∀ es, elemsOf E v = .ok es → ∀ e ∈ es, e.ty = ie ∧ wtP ie e.v = true
+
+theorem converted_members {uns : Bool} {ie oe conv} {post : Value → Value}
+    (hpost : ∀ v : Value, v.ty = stripOpt oe → (post v).ty = stripOpt oe)
+    (hpf : PlanFor E uns ie oe conv) (hwi : wf ie = true) (hoi : hasOpt ie = false)
+    (hwo : wf oe = true) (hdo : hasDyn oe = false) (hreg : regular ie oe = true)
+    {es es' : List Value} (hes : ∀ e ∈ es, e.ty = ie ∧ wtP ie e.v = true)
+    (h : mapRes (fun e => (applyOpt rec conv e).map post) es = .ok es') :
+    es'.length = es.length ∧ ∀ e' ∈ es', e'.ty = stripOpt oe := by
+  refine mapRes_forall (P := fun e => e.ty = ie ∧ wtP ie e.v = true) (Q := fun e' => e'.ty = stripOpt oe)
+    ?_ es es' hes h
+  intro a b ⟨hat, haw⟩ hb
+  obtain ⟨b', hb', rfl⟩ := Res.map_eq_ok hb
+  exact hpost _ (planFor_ty hrec hpf ⟨hat, hwi, hwo, hoi, hdo, hreg, haw⟩ hb')
+
+theorem collToList_ty {uns : Bool} {ie oe conv} {v r : Value}
+    (hpf : PlanFor E uns ie oe conv) (hwi : wf ie = true) (hoi : hasOpt ie = false)
+    (hwo : wf oe = true) (hdo : hasDyn oe = false) (hreg : regular ie oe = true)
+    (hel : ElemsOK E v ie) (h : applyStep E rec (.collToList oe conv) v = .ok r) :
+    r.ty = .list oe.stripOpt := by
+  have hnd : oe.isDyn = false := not_isDyn_of_noDyn hdo
+  simp only [applyStep, hnd] at h
+  split at h
+  · simp at h; subst h; rfl
+  · obtain ⟨es, hes, h⟩ := Res.bind_eq_ok h
+    obtain ⟨es', hes', h⟩ := Res.bind_eq_ok h
+    have hm := converted_members hU hrec (post := stripNull) (fun _ hv => stripNull_ty' hv)
+      hpf hwi hoi hwo hdo hreg (hel es hes) hes'
+    split at h
+    · simp at h; subst h; rfl
+    · rename_i hne
+      have hne' : es' ≠ [] := by simpa using hne
+      have hT := wf_stripOpt oe hwo
+      have hTd : (stripOpt oe).isDyn = false := not_isDyn_of_noDyn (by rw [stripOpt_hasDyn]; exact hdo)
+      simp only [canCollVal_same hT hTd hne' hm.2] at h
+      exact listVal_ty hT hTd hm.2 h
+
+theorem collToSet_ty {uns : Bool} {ie oe conv} {v r : Value}
+    (hpf : PlanFor E uns ie oe conv) (hwi : wf ie = true) (hoi : hasOpt ie = false)
+    (hwo : wf oe = true) (hdo : hasDyn oe = false) (hreg : regular ie oe = true)
+    (hel : ElemsOK E v ie) (h : applyStep E rec (.collToSet oe conv) v = .ok r) :
+    r.ty = .set oe.stripOpt := by
+  have hnd : oe.isDyn = false := not_isDyn_of_noDyn hdo
+  simp only [applyStep, hnd] at h
+  obtain ⟨es, hes, h⟩ := Res.bind_eq_ok h
+  obtain ⟨es', hes', h⟩ := Res.bind_eq_ok h
+  have hm := converted_members hU hrec (post := stripNull) (fun _ hv => stripNull_ty' hv)
+    hpf hwi hoi hwo hdo hreg (hel es hes) hes'
+  split at h
+  · simp at h; subst h; rfl
+  · rename_i hne
+    have hne' : es' ≠ [] := by simpa using hne
+    have hT := wf_stripOpt oe hwo
+    have hTd : (stripOpt oe).isDyn = false := not_isDyn_of_noDyn (by rw [stripOpt_hasDyn]; exact hdo)
+    simp only [canCollVal_same hT hTd hne' hm.2] at h
+    exact setVal_ty hT hTd hm.2 h
+
+theorem collToMap_ty {uns : Bool} {ie oe conv} {v r : Value}
+    (hpf : PlanFor E uns ie oe conv) (hwi : wf ie = true) (hoi : hasOpt ie = false)
+    (hwo : wf oe = true) (hdo : hasDyn oe = false) (hreg : regular ie oe = true)
+    (hel : ElemsOK E v ie) (h : applyStep E rec (.collToMap oe conv) v = .ok r) :
+    r.ty = .map oe.stripOpt := by
+  have hnd : oe.isDyn = false := not_isDyn_of_noDyn hdo
+  simp only [applyStep, hnd] at h
+  obtain ⟨es, hes, h⟩ := Res.bind_eq_ok h
+  obtain ⟨es', hes', h⟩ := Res.bind_eq_ok h
+  have hes'' : mapRes (fun e => (applyOpt rec conv e).map id) es = .ok es' := by
+    have : (fun e => (applyOpt rec conv e).map id) = fun e => applyOpt rec conv e := by
+      funext e; cases applyOpt rec conv e <;> rfl
+    rw [this]; exact hes'
+  have hm := converted_members hU hrec (post := id) (fun _ hv => hv)
+    hpf hwi hoi hwo hdo hreg (hel es hes) hes''
+  split at h
+  · simp at h; subst h; rfl
+  · rename_i hne
+    have hne' : es' ≠ [] := by simpa using hne
+    have hT := wf_stripOpt oe hwo
+    have hTo := stripOpt_noOpt oe
+    have hTd : (stripOpt oe).isDyn = false := not_isDyn_of_noDyn (by rw [stripOpt_hasDyn]; exact hdo)
+    have hun : (if isCollOrObj oe = true then unifyElems E rec false es' else Res.ok es') = .ok es' := by
+      split
+      · exact unifyElems_same hU hT hTo hne' hm.2
+      · rfl
+    rw [hun] at h
+    simp only [Res.bind, canCollVal_same hT hTd hne' hm.2] at h
+    exact mapVal_ty hT hTd hm.2 h
+
+theorem tupToList_ty {uns : Bool} {its : List Ty} {oe : Ty} {cs : List Plan} {ps : List Payload} {r : Value}
+    (hpl : All2 (fun it p => PlanFor E uns it oe p) its cs) (hne : its ≠ []) (hw : wtZip its ps = true)
+    (hall : ∀ it ∈ its, wf it = true ∧ hasOpt it = false ∧ regular it oe = true)
+    (hwo : wf oe = true) (hdo : hasDyn oe = false)
+    (h : applyStep E rec (.tupToList cs uns) ⟨.tuple its, .seq ps⟩ = .ok r) : r.ty = .list oe.stripOpt := by
+  simp only [applyStep, elemsOf] at h
+  obtain ⟨es, hes, h⟩ := Res.bind_eq_ok h
+  simp at hes; subst hes
+  obtain ⟨es', hes', h⟩ := Res.bind_eq_ok h
+  have hm := applyZip_all hrec id (fun _ hv => hv) hwo hdo its cs ps es' hpl hw hall hes'
+  have hne' : es' ≠ [] := by
+    intro he; rw [he] at hm
+    have h0 := hm.1
+    simp at h0
+    exact hne (List.length_eq_zero_iff.mp h0.symm)
+  have hT := wf_stripOpt oe hwo
+  have hTd : (stripOpt oe).isDyn = false := not_isDyn_of_noDyn (by rw [stripOpt_hasDyn]; exact hdo)
+  rw [unifyElems_same hU hT (stripOpt_noOpt oe) hne' hm.2] at h
+  simp only [Res.bind, canCollVal_same hT hTd hne' hm.2] at h
+  exact listVal_ty hT hTd hm.2 h
+
+theorem tupToSet_ty {uns : Bool} {its : List Ty} {oe : Ty} {cs : List Plan} {ps : List Payload} {r : Value}
+    (hpl : All2 (fun it p => PlanFor E uns it oe p) its cs) (hne : its ≠ []) (hw : wtZip its ps = true)
+    (hall : ∀ it ∈ its, wf it = true ∧ hasOpt it = false ∧ regular it oe = true)
+    (hwo : wf oe = true) (hdo : hasDyn oe = false)
+    (h : applyStep E rec (.tupToSet cs) ⟨.tuple its, .seq ps⟩ = .ok r) : r.ty = .set oe.stripOpt := by
+  simp only [applyStep, elemsOf] at h
+  obtain ⟨es, hes, h⟩ := Res.bind_eq_ok h
+  simp at hes; subst hes
+  obtain ⟨es', hes', h⟩ := Res.bind_eq_ok h
+  have hm := applyZip_all hrec stripNull (fun _ hv => stripNull_ty' hv) hwo hdo its cs ps es' hpl hw hall hes'
+  have hne' : es' ≠ [] := by
+    intro he; rw [he] at hm
+    have h0 := hm.1
+    simp at h0
+    exact hne (List.length_eq_zero_iff.mp h0.symm)
+  have hT := wf_stripOpt oe hwo
+  have hTd : (stripOpt oe).isDyn = false := not_isDyn_of_noDyn (by rw [stripOpt_hasDyn]; exact hdo)
+  simp only [canCollVal_same hT hTd hne' hm.2] at h
+  exact setVal_ty hT hTd hm.2 h
+
+omit hU hrec in
+theorem lookup_map_self : ∀ (pre : List String) (preC : List Plan) (ns : List String) (cs : List Plan),
+    pre.length = preC.length → ns.length = cs.length → (∀ x ∈ ns, x ∉ pre) → ns.Nodup →
+    ns.map (fun k => (lookupPlan k (pre ++ ns) (preC ++ cs)).getD .nil) = cs
+  | _, _, [], [], _, _, _, _ => rfl
+  | _, _, [], _ :: _, _, h, _, _ => by simp at h
+  | _, _, _ :: _, [], _, h, _, _ => by simp at h
+  | pre, preC, n :: ns, c :: cs, hl, hl2, hpre, hnd => by
+    have hnd' := List.nodup_cons.mp hnd
+    simp only [List.map_cons, lookupPlan_prefix pre preC n ns c cs hl (hpre n (by simp)), Option.getD_some]
+    congr 1
+    have := lookup_map_self (pre ++ [n]) (preC ++ [c]) ns cs (by simp [hl]) (by simpa using hl2)
+      (by
+        intro x hx hm
+        rcases List.mem_append.mp hm with hm | hm
+        · exact hpre x (by simp [hx]) hm
+        · simp at hm; subst hm; exact hnd'.1 hx) hnd'.2
+    simpa [List.append_assoc] using this
+
+theorem objToMap_ty {uns : Bool} {inn : List String} {its : List Ty} {ios : List Bool} {oe : Ty}
+    {cs : List Plan} {ps : List Payload} {r : Value}
+    (hpl : All2 (fun it p => PlanFor E uns it oe p) its cs) (hne : its ≠ []) (hw : wtZip its ps = true)
+    (hnd : inn.Nodup) (hln : inn.length = its.length)
+    (hall : ∀ it ∈ its, wf it = true ∧ hasOpt it = false ∧ regular it oe = true)
+    (hwo : wf oe = true) (hdo : hasDyn oe = false)
+    (h : applyStep E rec (.objToMap inn cs oe uns) ⟨.object inn its ios, .smap inn ps⟩ = .ok r) :
+    r.ty = .map oe.stripOpt := by
+  simp only [applyStep, elemsOf, keysOf] at h
+  obtain ⟨es, hes, h⟩ := Res.bind_eq_ok h
+  simp at hes; subst hes
+  have hlc : inn.length = cs.length := by rw [hln]; exact hpl.length
+  have hself := lookup_map_self [] [] inn cs rfl hlc (by simp) hnd
+  simp only [List.nil_append] at hself
+  rw [hself] at h
+  obtain ⟨es', hes', h⟩ := Res.bind_eq_ok h
+  have hm := applyZip_all hrec id (fun _ hv => hv) hwo hdo its cs ps es' hpl hw hall hes'
+  have hne' : es' ≠ [] := by
+    intro he; rw [he] at hm
+    have h0 := hm.1
+    simp at h0
+    exact hne (List.length_eq_zero_iff.mp h0.symm)
+  have hT := wf_stripOpt oe hwo
+  have hTd : (stripOpt oe).isDyn = false := not_isDyn_of_noDyn (by rw [stripOpt_hasDyn]; exact hdo)
+  have hun : (if isCollOrObj oe = true then unifyElems E rec uns es' else Res.ok es') = .ok es' := by
+    split
+    · exact unifyElems_same hU hT (stripOpt_noOpt oe) hne' hm.2
+    · rfl
+  rw [hun] at h
+  simp only [Res.bind, canCollVal_same hT hTd hne' hm.2] at h
+  exact mapVal_ty hT hTd hm.2 h
+
+omit hU in
+theorem tupToTup_ty {uns : Bool} {its ots : List Ty} {cs : List Plan} {ps : List Payload} {r : Value}
+    (hpl : All3 (fun it ot p => PlanFor E uns it ot p) its ots cs) (hw : wtZip its ps = true)
+    (hwi : wfL its = true) (hoi : hasOptL its = false) (hwo : wfL ots = true) (hdo : hasDynL ots = false)
+    (hr : regularZip its ots = true)
+    (h : applyStep E rec (.tupToTup cs) ⟨.tuple its, .seq ps⟩ = .ok r) : r.ty = .tuple (stripOptL ots) := by
+  simp only [applyStep, elemsOf] at h
+  obtain ⟨es, hes, h⟩ := Res.bind_eq_ok h
+  simp at hes; subst hes
+  obtain ⟨es', hes', h⟩ := Res.bind_eq_ok h
+  simp at h; subst h
+  simp [tupleVal, applyZip_zip hrec its ots cs ps es' hpl hw hwi hoi hwo hdo hr hes']
+
+omit hU hrec in
+theorem attrOK_build {uns : Bool} {on : List String} {ot : List Ty} {oo : List Bool} :
+    ∀ (pre : List String) (preC : List Plan) (preT : List Ty) (preB : List Bool)
+      (ns : List String) (its : List Ty) (ios : List Bool) (cs : List Plan),
+    pre.length = preC.length → pre.length = preT.length → preB.length = preT.length →
+    ios.length = its.length → (∀ x ∈ ns, x ∉ pre) → ns.Nodup →
+    All3 (AttrPlan E uns on ot oo) ns its cs →
+    (∀ n it b, Ty.find n (pre ++ ns) (preT ++ its) (preB ++ ios) = some (it, b) →
+      wf it = true ∧ hasOpt it = false ∧ ∀ oty o, Ty.find n on ot oo = some (oty, o) →
+        wf oty = true ∧ hasDyn oty = false ∧ regular it oty = true) →
+    All3 (AttrOK E uns on ot oo (pre ++ ns) (preC ++ cs)) ns its cs
+  | _, _, _, _, [], _, _, _, _, _, _, _, _, _, .nil, _ => .nil
+  | _, _, _, _, _ :: _, _ :: _, [], _, _, _, _, h, _, _, _, _ => by simp at h
+  | pre, preC, preT, preB, n :: ns, it :: its, io :: ios, c :: cs, h1, h2, h3, h4, hpre, hnd, .cons hr hrs, hf => by
+    have hnd' := List.nodup_cons.mp hnd
+    have hfind := find_prefix pre preT preB n ns it its io ios h2 h3 (hpre n (by simp))
+    obtain ⟨hw, ho, hrest⟩ := hf n it io hfind
+    refine .cons ⟨lookupPlan_prefix pre preC n ns c cs h1 (hpre n (by simp)), hr, hw, ho, hrest⟩ ?_
+    have := attrOK_build (pre ++ [n]) (preC ++ [c]) (preT ++ [it]) (preB ++ [io]) ns its ios cs
+      (by simp [h1]) (by simp [h2]) (by simp [h3]) (by simpa using h4)
+      (by
+        intro x hx hm
+        rcases List.mem_append.mp hm with hm | hm
+        · exact hpre x (by simp [hx]) hm
+        · simp at hm; subst hm; exact hnd'.1 hx) hnd'.2 hrs
+      (by simpa [List.append_assoc] using hf)
+    simpa [List.append_assoc] using this
+
+omit hU hrec in
+theorem fillOK_build {names : List String} {vals : List Value} {on : List String} {ot : List Ty} {oo : List Bool}
+    {inn : List String}
+    (hb : ∀ n ∈ inn, (Ty.find n on ot oo).isSome = true → (lookupVal n names vals).isSome = true) :
+    ∀ (ns : List String) (ts : List Ty) (os : List Bool), FieldsIn ns ts os on ot oo →
+    requiredPresent ns os inn = true → FillOK names vals on ot oo ns ts os
+  | [], _, _, _, _ => by simp [FillOK]
+  | _ :: _, [], _, _, _ => by simp [FillOK]
+  | _ :: _, _ :: _, [], _, _ => by simp [FillOK]
+  | n :: ns, t :: ts, o :: os, hf, hreq => by
+    simp only [FieldsIn] at hf
+    simp only [requiredPresent, Bool.and_eq_true, Bool.or_eq_true] at hreq
+    refine ⟨hf.1, ?_, fillOK_build hb ns ts os hf.2 hreq.2⟩
+    rcases hreq.1 with h | h
+    · exact .inl h
+    · exact .inr (hb n (by simpa using h) (by simp [hf.1]))
+
+theorem objToObj_ty {uns : Bool} {inn : List String} {its : List Ty} {ios : List Bool} {on : List String}
+    {ot : List Ty} {oo : List Bool} {cs : List Plan} {ps : List Payload} {r : Value}
+    (hpl : All3 (AttrPlan E uns on ot oo) inn its cs) (hw : wtZip its ps = true)
+    (hwfI : wf (.object inn its ios) = true) (hoI : hasOpt (.object inn its ios) = false)
+    (hwfO : wf (.object on ot oo) = true) (hdO : hasDyn (.object on ot oo) = false)
+    (hreg : regularObj inn its ios on ot = true) (hreq : requiredPresent on oo inn = true)
+    (h : applyStep E rec (.objToObj inn cs on ot oo) ⟨.object inn its ios, .smap inn ps⟩ = .ok r) :
+    r.ty = .object on (stripOptL ot) (oo.map fun _ => false) := by
+  simp only [wf, Bool.and_eq_true, beq_iff_eq] at hwfI hwfO
+  simp only [hasOpt, Bool.or_eq_false_iff] at hoI
+  simp only [hasDyn] at hdO
+  simp only [applyStep, elemsOf, keysOf] at h
+  obtain ⟨es, hes, h⟩ := Res.bind_eq_ok h
+  simp at hes; subst hes
+  obtain ⟨rr, hrr, h⟩ := Res.bind_eq_ok h
+  simp at h; subst h
+  have hndI := strictAsc_nodup hwfI.1.2
+  have hok := attrOK_build (E := E) (uns := uns) (on := on) (ot := ot) (oo := oo) [] [] [] [] inn its ios cs
+    rfl rfl rfl hwfI.1.1.2 (by simp) hndI hpl (by
+      intro n it b hf
+      simp only [List.nil_append] at hf
+      refine ⟨wfL_mem hwfI.2 it (find_mem_ty hf), hasOptL_mem hoI.2 it (find_mem_ty hf), ?_⟩
+      intro oty o hfo
+      exact ⟨wfL_mem hwfO.2 oty (find_mem_ty hfo), hasDynL_mem hdO oty (find_mem_ty hfo),
+        regularObj_find on ot oo hreg hfo it b hf⟩)
+  simp only [List.nil_append] at hok
+  have hspec := objAttrLoop_spec hrec inn its cs ps rr hok hw hrr
+  have hfill := fillOK_build (names := rr.1) (vals := rr.2) hspec.2 on ot oo (FieldsIn_self hwfO.1.2) hreq
+  have hres := objFill_spec hspec.1 on ot oo hwfO.1.1.1 hwfO.1.1.2 hfill
+  have hlen : (objFill rr.1 rr.2 on ot oo).2.length = oo.length := by
+    have := congrArg List.length hres.2
+    simp [stripOptL_length] at this
+    rw [this, hwfO.1.1.2]
+  simp only [objectVal, hres.1, hres.2, map_false_of_length hlen]
+
+theorem mapToObj_ty {uns : Bool} {ie : Ty} {on : List String} {ot : List Ty} {oo : List Bool}
+    {cs : List Plan} {ks : List String} {ps : List Payload} {r : Value}
+    (hpl : All2 (fun t p => MapObjPlan E uns ie t p) ot cs) (hw : wtAll ie ps = true)
+    (hwi : wf ie = true) (hoi : hasOpt ie = false)
+    (hwfO : wf (.object on ot oo) = true) (hdO : hasDyn (.object on ot oo) = false)
+    (hreg : regularAll ie ot = true) (hflat : optFlat ot oo = true)
+    (h : applyStep E rec (.mapToObj on ot oo cs) ⟨.map ie, .smap ks ps⟩ = .ok r) :
+    r.ty = .object on (stripOptL ot) (oo.map fun _ => false) := by
+  simp only [wf, Bool.and_eq_true, beq_iff_eq] at hwfO
+  simp only [hasDyn] at hdO
+  simp only [applyStep, elemsOf, keysOf] at h
+  obtain ⟨es, hes, h⟩ := Res.bind_eq_ok h
+  simp at hes; subst hes
+  obtain ⟨rr, hrr, h⟩ := Res.bind_eq_ok h
+  obtain ⟨vals, hvals, h⟩ := Res.bind_eq_ok h
+  simp at h; subst h
+  have hregmem := regularAll_mem hreg
+  have hspec := mapObjLoop_spec hrec hpl hwfO.1.1.1 hwfO.1.1.2 hwi hoi (by
+      intro n t o hf
+      exact ⟨wfL_mem hwfO.2 t (find_mem_ty hf), hasDynL_mem hdO t (find_mem_ty hf), hregmem t (find_mem_ty hf)⟩)
+    ks ps rr hw hrr
+  have htys := mapObjFill_spec hspec on ot oo vals hwfO.1.1.1 hwfO.1.1.2 (FieldsIn_self hwfO.1.2) hflat hvals
+  have hlen : vals.length = oo.length := by
+    rw [mapObjFill_length on ot oo vals hwfO.1.1.1 hwfO.1.1.2 hvals, hwfO.1.1.2]
+  simp only [objectVal, htys, map_false_of_length hlen]
+
+end Bodies
+
+/-! ### primitive conversions -/
+
+theorem numToStr_ty {E : Env} {rec : Rec} {v r : Value} (h : applyStep E rec .numToStr v = .ok r) :
+    r.ty = .string := by
+  simp only [applyStep] at h
+  split at h <;> simp at h
+  subst h; rfl
+
+theorem boolToStr_ty {E : Env} {rec : Rec} {v r : Value} (h : applyStep E rec .boolToStr v = .ok r) :
+    r.ty = .string := by
+  simp only [applyStep] at h
+  split at h <;> simp at h
+  subst h; rfl
+
+theorem strToNum_ty {E : Env} {rec : Rec} {v r : Value} (h : applyStep E rec .strToNum v = .ok r) :
+    r.ty = .number := by
+  simp only [applyStep] at h
+  split at h
+  · obtain ⟨x, _, hx⟩ := Res.map_eq_ok h
+    subst hx; rfl
+  · simp at h
+
+theorem strToBool_ty {E : Env} {rec : Rec} {v r : Value} (h : applyStep E rec .strToBool v = .ok r) :
+    r.ty = .bool := by
+  simp only [applyStep] at h
+  split at h
+  · split at h
+    · simp at h; subst h; rfl
+    · split at h
+      · simp at h; subst h; rfl
+      · simp at h
+  · simp at h
+
+/-! ### every closure body -/
+
+theorem inner_ty {E : Env} (hU : UnifyLaws E) {rec : Rec} (hrec : RecOK E rec)
+    (inT out : Ty) (uns : Bool) (c : Plan) (v r : Value) (hg : gck E inT out uns = some c)
+    (hc : Conds inT out v) (hp : plain v.v) (h : applyStep E rec c v = .ok r) :
+    r.ty = out.stripOpt := by
+  obtain ⟨hty, hwI, hwO, hoI, hdO, hreg, hwt⟩ := hc
+  obtain ⟨vt, vp⟩ := v
+  simp only at hty hwt hp
+  subst hty
+  have hid : vt.isDyn = false := by
+    cases vt <;> simp [Ty.isDyn]
+    exact (shape_prim_dyn hp hwt).elim
+  cases out with
+  | dyn => simp [hasDyn] at hdO
+  | bool =>
+    cases vt <;> simp [gck, Ty.isDyn, isPrim, primSafe, primUnsafe] at hg hid
+    all_goals (obtain ⟨_, rfl⟩ := hg; simp [stripOpt, strToBool_ty h])
+  | number =>
+    cases vt <;> simp [gck, Ty.isDyn, isPrim, primSafe, primUnsafe] at hg hid
+    all_goals (obtain ⟨_, rfl⟩ := hg; simp [stripOpt, strToNum_ty h])
+  | string =>
+    cases vt <;> simp [gck, Ty.isDyn, isPrim, primSafe, primUnsafe] at hg hid
+    · subst hg; simp [stripOpt, boolToStr_ty h]
+    · subst hg; simp [stripOpt, numToStr_ty h]
+  | capsule i =>
+    cases vt <;> simp [gck, Ty.isDyn, isPrim, primSafe, primUnsafe] at hg hid
+  | list oe =>
+    have hwo : wf oe = true := by simpa [wf] using hwO
+    have hdo : hasDyn oe = false := by simpa [hasDyn] using hdO
+    cases vt <;> simp [gck, Ty.isDyn, isPrim] at hg hid
+    case list ie =>
+      have hwi : wf ie = true := by simpa [wf] using hwI
+      have hoi : hasOpt ie = false := by simpa [hasOpt] using hoI
+      have hr : regular ie oe = true := by simpa [regular, Ty.isDyn] using hreg
+      obtain ⟨ps, rfl, hps⟩ := shape_list hp hwt
+      have hel : ElemsOK E ⟨.list ie, .seq ps⟩ ie := by
+        intro es hes e he
+        simp [elemsOf] at hes; subst hes
+        obtain ⟨p, hpm, rfl⟩ := List.mem_map.mp he
+        exact ⟨rfl, wtAll_mem hps p hpm⟩
+      have hpf : ∃ conv, c = .collToList oe conv ∧ PlanFor E uns ie oe conv := by
+        split at hg
+        · rename_i he; simp at hg; exact ⟨.nil, hg.symm, .inl ⟨rfl, he⟩⟩
+        · obtain ⟨c', hc', rfl⟩ := Option.map_eq_some_iff.mp hg
+          exact ⟨_, rfl, .inr ⟨c', rfl, hc'⟩⟩
+      obtain ⟨conv, rfl, hpf⟩ := hpf
+      simp [stripOpt, collToList_ty hU hrec hpf hwi hoi hwo hdo hr hel h]
+    case set ie =>
+      have hwi : wf ie = true := by simpa [wf] using hwI
+      have hoi : hasOpt ie = false := by simpa [hasOpt] using hoI
+      have hr : regular ie oe = true := by simpa [regular, Ty.isDyn] using hreg
+      obtain ⟨ids, ps, rfl, hps⟩ := shape_set hp hwt
+      have hel : ElemsOK E ⟨.set ie, .sset ids ps⟩ ie := by
+        intro es hes e he
+        simp [elemsOf] at hes; subst hes
+        obtain ⟨p, hpm, rfl⟩ := List.mem_map.mp he
+        exact ⟨rfl, wtAll_mem hps p (setValues_mem hpm)⟩
+      have hpf : ∃ conv, c = .collToList oe conv ∧ PlanFor E uns ie oe conv := by
+        split at hg
+        · rename_i he; simp at hg; exact ⟨.nil, hg.symm, .inl ⟨rfl, he⟩⟩
+        · obtain ⟨c', hc', rfl⟩ := Option.map_eq_some_iff.mp hg
+          exact ⟨_, rfl, .inr ⟨c', rfl, hc'⟩⟩
+      obtain ⟨conv, rfl, hpf⟩ := hpf
+      simp [stripOpt, collToList_ty hU hrec hpf hwi hoi hwo hdo hr hel h]
+    case tuple its =>
+      have hwi : wfL its = true := by simpa [wf] using hwI
+      have hoi : hasOptL its = false := by simpa [hasOpt] using hoI
+      have hr : ∀ it ∈ its, regular it oe = true := by
+        have : (its.all fun it => regular it oe) = true := by simpa [regular, Ty.isDyn] using hreg
+        exact all_of_regular this
+      obtain ⟨ps, rfl, hps⟩ := shape_tuple hp hwt
+      split at hg
+      · simp at hg; subst hg
+        simp only [applyStep] at h
+        simp at h; subst h; simp [stripOpt]
+      · rename_i hne
+        have hnd : oe.isDyn = false := not_isDyn_of_noDyn hdo
+        simp only [seqTargetEty, hnd] at hg
+        obtain ⟨cs, hcs, rfl⟩ := Option.map_eq_some_iff.mp hg
+        have hpl := gcAll_inv E uns oe hcs
+        simp [stripOpt, tupToList_ty hU hrec hpl hne hps
+          (fun it hit => ⟨wfL_mem hwi it hit, hasOptL_mem hoi it hit, hr it hit⟩) hwo hdo h]
+  | set oe =>
+    have hwo : wf oe = true := by simpa [wf] using hwO
+    have hdo : hasDyn oe = false := by simpa [hasDyn] using hdO
+    cases vt <;> simp [gck, Ty.isDyn, isPrim] at hg hid
+    case list ie =>
+      have hwi : wf ie = true := by simpa [wf] using hwI
+      have hoi : hasOpt ie = false := by simpa [hasOpt] using hoI
+      have hr : regular ie oe = true := by simpa [regular, Ty.isDyn] using hreg
+      obtain ⟨ps, rfl, hps⟩ := shape_list hp hwt
+      have hel : ElemsOK E ⟨.list ie, .seq ps⟩ ie := by
+        intro es hes e he
+        simp [elemsOf] at hes; subst hes
+        obtain ⟨p, hpm, rfl⟩ := List.mem_map.mp he
+        exact ⟨rfl, wtAll_mem hps p hpm⟩
+      have hpf : ∃ conv, c = .collToSet oe conv ∧ PlanFor E uns ie oe conv := by
+        obtain ⟨_, hg⟩ := hg
+        split at hg
+        · rename_i he; simp at hg; exact ⟨.nil, hg.symm, .inl ⟨rfl, he⟩⟩
+        · obtain ⟨c', hc', rfl⟩ := Option.map_eq_some_iff.mp hg
+          exact ⟨_, rfl, .inr ⟨c', rfl, hc'⟩⟩
+      obtain ⟨conv, rfl, hpf⟩ := hpf
+      simp [stripOpt, collToSet_ty hU hrec hpf hwi hoi hwo hdo hr hel h]
+    case set ie =>
+      have hwi : wf ie = true := by simpa [wf] using hwI
+      have hoi : hasOpt ie = false := by simpa [hasOpt] using hoI
+      have hr : regular ie oe = true := by simpa [regular, Ty.isDyn] using hreg
+      obtain ⟨ids, ps, rfl, hps⟩ := shape_set hp hwt
+      have hel : ElemsOK E ⟨.set ie, .sset ids ps⟩ ie := by
+        intro es hes e he
+        simp [elemsOf] at hes; subst hes
+        obtain ⟨p, hpm, rfl⟩ := List.mem_map.mp he
+        exact ⟨rfl, wtAll_mem hps p (setValues_mem hpm)⟩
+      have hpf : ∃ conv, c = .collToSet oe conv ∧ PlanFor E uns ie oe conv := by
+        split at hg
+        · rename_i he; simp at hg; exact ⟨.nil, hg.symm, .inl ⟨rfl, he⟩⟩
+        · obtain ⟨c', hc', rfl⟩ := Option.map_eq_some_iff.mp hg
+          exact ⟨_, rfl, .inr ⟨c', rfl, hc'⟩⟩
+      obtain ⟨conv, rfl, hpf⟩ := hpf
+      simp [stripOpt, collToSet_ty hU hrec hpf hwi hoi hwo hdo hr hel h]
+    case tuple its =>
+      have hwi : wfL its = true := by simpa [wf] using hwI
+      have hoi : hasOptL its = false := by simpa [hasOpt] using hoI
+      have hr : ∀ it ∈ its, regular it oe = true := by
+        have : (its.all fun it => regular it oe) = true := by simpa [regular, Ty.isDyn] using hreg
+        exact all_of_regular this
+      obtain ⟨ps, rfl, hps⟩ := shape_tuple hp hwt
+      split at hg
+      · simp at hg; subst hg
+        simp only [applyStep] at h
+        simp at h; subst h; simp [stripOpt]
+      · rename_i hne
+        have hnd : oe.isDyn = false := not_isDyn_of_noDyn hdo
+        simp only [seqTargetEty, hnd] at hg
+        obtain ⟨cs, hcs, rfl⟩ := Option.map_eq_some_iff.mp hg
+        have hpl := gcAll_inv E uns oe hcs
+        simp [stripOpt, tupToSet_ty hU hrec hpl hne hps
+          (fun it hit => ⟨wfL_mem hwi it hit, hasOptL_mem hoi it hit, hr it hit⟩) hwo hdo h]
+  | map oe =>
+    have hwo : wf oe = true := by simpa [wf] using hwO
+    have hdo : hasDyn oe = false := by simpa [hasDyn] using hdO
+    cases vt <;> simp [gck, Ty.isDyn, isPrim] at hg hid
+    case map ie =>
+      have hwi : wf ie = true := by simpa [wf] using hwI
+      have hoi : hasOpt ie = false := by simpa [hasOpt] using hoI
+      have hr : regular ie oe = true := by simpa [regular, Ty.isDyn] using hreg
+      obtain ⟨ks, ps, rfl, _, hps⟩ := shape_map hp hwt
+      have hel : ElemsOK E ⟨.map ie, .smap ks ps⟩ ie := by
+        intro es hes e he
+        simp [elemsOf] at hes; subst hes
+        obtain ⟨p, hpm, rfl⟩ := List.mem_map.mp he
+        exact ⟨rfl, wtAll_mem hps p hpm⟩
+      obtain ⟨c', hc', rfl⟩ := hg
+      simp [stripOpt, collToMap_ty hU hrec (.inr ⟨c', rfl, hc'⟩) hwi hoi hwo hdo hr hel h]
+    case object inn its ios =>
+      have hwi : wfL its = true := by
+        simp only [wf, Bool.and_eq_true] at hwI; exact hwI.2
+      have hoi : hasOptL its = false := by
+        simp only [hasOpt, Bool.or_eq_false_iff] at hoI; exact hoI.2
+      have hr : ∀ it ∈ its, regular it oe = true := by
+        have : (its.all fun it => regular it oe) = true := by simpa [regular, Ty.isDyn] using hreg
+        exact all_of_regular this
+      obtain ⟨ps, rfl, hps⟩ := shape_object hp hwt
+      split at hg
+      · simp at hg; subst hg
+        simp only [applyStep] at h
+        simp at h; subst h; simp [stripOpt]
+      · rename_i hne
+        have hnd : oe.isDyn = false := not_isDyn_of_noDyn hdo
+        simp only [mapTargetEty, hnd] at hg
+        obtain ⟨cs, hcs, rfl⟩ := Option.map_eq_some_iff.mp hg
+        have hpl := gcAll_inv E uns oe hcs
+        simp only [wf, Bool.and_eq_true, beq_iff_eq] at hwI
+        simp [stripOpt, objToMap_ty hU hrec hpl hne hps (strictAsc_nodup hwI.1.2) hwI.1.1.1
+          (fun it hit => ⟨wfL_mem hwi it hit, hasOptL_mem hoi it hit, hr it hit⟩) hwo hdo h]
+  | tuple ots =>
+    cases vt <;> simp [gck, Ty.isDyn, isPrim] at hg hid
+    case tuple its =>
+      obtain ⟨hlen, cs, hcs, rfl⟩ := hg
+      obtain ⟨ps, rfl, hps⟩ := shape_tuple hp hwt
+      have hr : regularZip its ots = true := by
+        have := hreg; simp [regular, Ty.isDyn] at this; exact this.2
+      have hpl := gcZip_inv E uns hlen hcs
+      simp [stripOpt, tupToTup_ty hrec hpl hps (by simpa [wf] using hwI) (by simpa [hasOpt] using hoI)
+        (by simpa [wf] using hwO) (by simpa [hasDyn] using hdO) hr h]
+  | object on ot oo =>
+    cases vt <;> simp [gck, Ty.isDyn, isPrim] at hg hid
+    case map ie =>
+      obtain ⟨_, cs, hcs, rfl⟩ := hg
+      obtain ⟨ks, ps, rfl, _, hps⟩ := shape_map hp hwt
+      have hr := hreg; simp [regular, Ty.isDyn] at hr
+      have hwO' := hwO
+      simp only [wf, Bool.and_eq_true, beq_iff_eq] at hwO'
+      have hpl := mapToObjConvs_inv E uns ie (hwO'.1.1.2.symm) hcs
+      simp [stripOpt, mapToObj_ty hU hrec hpl hps (by simpa [wf] using hwI) (by simpa [hasOpt] using hoI)
+        hwO hdO hr.1 hr.2 h]
+    case object inn its ios =>
+      obtain ⟨hreq, cs, hcs, rfl⟩ := hg
+      obtain ⟨ps, rfl, hps⟩ := shape_object hp hwt
+      have hr : regularObj inn its ios on ot = true := by simpa [regular, Ty.isDyn] using hreg
+      have hwI' := hwI
+      simp only [wf, Bool.and_eq_true, beq_iff_eq] at hwI'
+      have hpl := gcObj_inv E uns on ot oo hwI'.1.1.1 hcs
+      simp [stripOpt, objToObj_ty hU hrec hpl hps hwI hoI hwO hdO hr hreq h]
+
+/-! ### erasing the target's annotations keeps the pair regular -/
+mutual
+theorem regular_stripOpt : ∀ (inT out : Ty), regular inT out = true → regular inT (stripOpt out) = true
+  | inT, .dyn, h | inT, .bool, h | inT, .number, h | inT, .string, h | inT, .capsule _, h => by
+    simpa [stripOpt] using h
+  | inT, .map oe, h => by
+    cases inT <;> simp [regular, stripOpt, Ty.isDyn] at h ⊢
+    case map ie => exact regular_stripOpt ie oe h
+    case object inn its ios => exact fun t ht => regular_stripOpt t oe (h t ht)
+  | inT, .list oe, h => by
+    cases inT <;> simp [regular, stripOpt, Ty.isDyn] at h ⊢
+    case list ie => exact regular_stripOpt ie oe h
+    case set ie => exact regular_stripOpt ie oe h
+    case tuple its => exact fun t ht => regular_stripOpt t oe (h t ht)
+  | inT, .set oe, h => by
+    cases inT <;> simp [regular, stripOpt, Ty.isDyn] at h ⊢
+    case list ie => exact regular_stripOpt ie oe h
+    case set ie => exact regular_stripOpt ie oe h
+    case tuple its => exact fun t ht => regular_stripOpt t oe (h t ht)
+  | inT, .object on ots oo, h => by
+    cases inT <;> simp [regular, stripOpt, Ty.isDyn] at h ⊢
+    case map ie => exact ⟨regularAll_stripOpt ie ots h.1, optFlat_false _ _⟩
+    case object inn its ios => exact regularObj_stripOpt inn its ios on ots h
+  | inT, .tuple ots, h => by
+    cases inT <;> simp [regular, stripOpt, Ty.isDyn] at h ⊢
+    case tuple its => exact ⟨by simpa [stripOptL_length] using h.1, regularZip_stripOpt its ots h.2⟩
+termination_by structural _ out => out
+theorem regularAll_stripOpt : ∀ (ie : Ty) (os : List Ty), regularAll ie os = true →
+    regularAll ie (stripOptL os) = true
+  | _, [], _ => by simp [stripOptL, regularAll]
+  | ie, o :: os, h => by
+    simp only [regularAll, Bool.and_eq_true] at h
+    simp [stripOptL, regularAll, regular_stripOpt ie o h.1, regularAll_stripOpt ie os h.2]
+termination_by structural _ os => os
+theorem regularObj_stripOpt : ∀ (inn : List String) (its : List Ty) (ios : List Bool) (ns : List String)
+    (os : List Ty), regularObj inn its ios ns os = true → regularObj inn its ios ns (stripOptL os) = true
+  | _, _, _, [], _, _ => by
+    intros; rename_i os _; cases os <;> simp [stripOptL, regularObj]
+  | _, _, _, _ :: _, [], _ => by simp [stripOptL, regularObj]
+  | inn, its, ios, n :: ns, o :: os, h => by
+    simp only [regularObj, Bool.and_eq_true] at h
+    simp only [stripOptL, regularObj, Bool.and_eq_true]
+    refine ⟨?_, regularObj_stripOpt inn its ios ns os h.2⟩
+    have h1 := h.1
+    split at h1
+    · exact regular_stripOpt _ o h1
+    · rfl
+termination_by structural _ _ _ _ os => os
+theorem regularZip_stripOpt : ∀ (its os : List Ty), regularZip its os = true →
+    regularZip its (stripOptL os) = true
+  | [], os, _ => by cases os <;> simp [stripOptL, regularZip]
+  | _ :: _, [], _ => by simp [stripOptL, regularZip]
+  | it :: its, o :: os, h => by
+    simp only [regularZip, Bool.and_eq_true] at h
+    simp [stripOptL, regularZip, regular_stripOpt it o h.1, regularZip_stripOpt its os h.2]
+termination_by structural _ os => os
+theorem optFlat_false : ∀ (ts : List Ty) (os : List Bool),
+    optFlat (stripOptL ts) (os.map fun _ => false) = true
+  | [], _ => by simp [stripOptL, optFlat]
+  | _ :: _, [] => by simp [stripOptL, optFlat]
+  | t :: ts, o :: os => by simp [stripOptL, optFlat, optFlat_false ts os]
+end
+
+/-! ### the wrapper, and every fuel -/
+
+theorem unmark_wt {t : Ty} {p : Payload} (hm : p.isMarked = true) (h : wtP t p = true) :
+    wtP t p.unmark1 = true := by
+  cases p <;> simp [Payload.isMarked] at hm
+  simp [wtP] at h
+  simpa [Payload.unmark1] using h.2
+
+theorem recOK_apply {E : Env} (hU : UnifyLaws E) : ∀ n, RecOK E (apply E n) := by
+  intro n
+  induction n using Nat.strongRecOn with
+  | _ n ih =>
+    intro inT out uns c v r hg hc h
+    cases n with
+    | zero => simp [apply] at h
+    | succ n =>
+      have hnd : out.isDyn = false := not_isDyn_of_noDyn hc.dynO
+      simp only [apply, applyStep] at h
+      split at h
+      · -- marked: convert the unmarked value, re-apply the marks
+        rename_i hm
+        split at h
+        · rename_i r0 hr0
+          simp at h; subst h
+          have hc' : Conds inT out v.unmark :=
+            ⟨hc.ty, hc.wfI, hc.wfO, hc.optI, hc.dynO, hc.reg, unmark_wt hm hc.wt⟩
+          exact ih n (Nat.lt_succ_self n) inT out uns c v.unmark r0 hg hc' hr0
+        · rename_i hno
+          exact absurd h (by
+            intro hh
+            exact hno r hh)
+      · rename_i hm
+        simp only [hnd, Bool.false_eq_true, if_false] at h
+        split at h
+        · -- unknown or null: the type comes from dynamicReplace
+          have hrepl := dynRepl_id E hU inT (stripOpt out) (regular_stripOpt inT out hc.reg)
+            (by rw [stripOpt_hasDyn]; exact hc.dynO) (stripOpt_noOpt out) (wf_stripOpt out hc.wfO)
+          rw [hc.ty, hrepl] at h
+          simp only at h
+          split at h
+          · obtain ⟨rng, _, h⟩ := Res.bind_eq_ok h
+            exact prepareUnknownResult_ty h
+          · simp at h; subst h; rfl
+        · rename_i hkn
+          have hk : v.isKnown = true ∧ v.isNull = false := by
+            simp only [Bool.or_eq_true, Bool.not_eq_true', not_or, Bool.not_eq_false,
+              Bool.not_eq_true] at hkn
+            exact hkn
+          cases n with
+          | zero => simp [apply] at h
+          | succ m =>
+            simp only [apply] at h
+            have hm' : v.v.isMarked = false := by
+              have : v.isMarked = false := by simpa using hm
+              exact this
+            exact inner_ty hU (ih m (by omega)) inT out uns c v r hg hc ⟨hm', hk.1, hk.2⟩ h
+
 end Convert
 end CtyModel
